@@ -43,12 +43,14 @@ METHODS = {
 }
 
 
-def gen_call(rng, kind, keys, op=None):
+def gen_call(rng, kind, keys, op=None, peek=None):
     op = op or rng.choice(METHODS[kind])
     k = lambda: rng.randint(1, keys)
     v = lambda: 1 if kind == "utset" else rng.randint(1, 9)
     d = rng.choice([5, 50]) if kind == "tlru" else 0
     p = rng.choice([0, 1]) if kind in vlib.PEEK_KINDS else 0
+    if peek is not None and kind in vlib.PEEK_KINDS:
+        p = peek
     if op == "ins":
         return "ins %d %d %d %d" % (k(), v(), rng.choice([3, 3, 1, 2]), d)
     if op == "insr":
